@@ -223,6 +223,7 @@ def run_case(case: dict, ctx: dict) -> dict:
     evaluations = 0
     compared = 0
     ref_cache = {}  # type: typing.Dict[str, dict]
+    ev_digests = []  # type: typing.List[str]
     O = real_opts(opts)
 
     def violation(sig: str, detail: dict) -> None:
@@ -275,6 +276,7 @@ def run_case(case: dict, ctx: dict) -> dict:
                     inv["rofs"] = True
                 res = proc.run_invocation(inv)
                 evaluations += 1
+                ev_digests.append(nnvg.event_digest(res) + res["stdout"].replace(world.sandbox, "@"))
                 after = snapshot.snapshot(world.sandbox, with_mtime=True)
                 states.append(snapshot.digest(after, with_mtime=True))
                 bump("ops", "%s%s@%s" % (mode, "+rofs" if rofs else "", phase))
@@ -385,7 +387,7 @@ def run_case(case: dict, ctx: dict) -> dict:
         "counters": counters,
         "sim_time_s": 0.0,
         "sample": {"opts": opts, "dirty": [{k: v for k, v in d.items() if k != "content"} for d in executed_dirty], "n_created": len(created)},
-        "digest": hashlib.sha256((key + "|".join(states)).encode()).hexdigest()[:16],
+        "digest": hashlib.sha256((key + "|".join(ev_digests) + "|".join(sorted(v["signature"] for v in violations))).encode()).hexdigest()[:16],
     }
 
 
